@@ -212,6 +212,22 @@ def unit_reuse(ctx):
                     ctx.nontrivial(cell, call_no)
                     ctx.check(abs(pwr / P - 1) <= Z * np.sqrt(vf / n.size) + 1e-3, "C07.f_noise_power_every_call", cell, {**case, "call": call_no}, {"measured": pwr, "ratio": pwr / P}, {"configured": P},
                               "a later call on the same channel object does not add the configured noise power", "c07:replay_reuse")
+                if ok_all and not as_tensor:
+                    # the parameter is a public attribute (the examples retune live channels through it): after an update the NEXT call follows it
+                    new_value = value * 4.0 if mode == "power" else value + 6.0
+                    setattr(ch, "avg_noise_power" if mode == "power" else "snr_db", new_value)
+                    x = gen_signal((20000,), 1.0, True, rng)
+                    torch.manual_seed(777)
+                    ok, y = ctx.call(lambda: ch(x, csi=torch.ones(1, dtype=torch.complex64)) if kind == "fading_stage" else ch(x), "C07.raises", cell, {**case, "call": "after_update"}, checker="c07:replay_reuse")
+                    if ok:
+                        s_ = stage_signal(kind, x)
+                        n = (y - s_).detach().numpy()
+                        P = new_value if mode == "power" else p64(s_) / 10 ** (new_value / 10)
+                        pwr = float(np.mean(np.abs(n) ** 2))
+                        vf = 5.0 if kind == "laplacian" else 2.0
+                        ctx.ev()
+                        ctx.check(abs(pwr / P - 1) <= Z * np.sqrt(vf / n.size) + 1e-3, "C07.f_noise_power_after_update", cell, {**case, "call": "after_update"}, {"measured": pwr, "ratio": pwr / P}, {"configured": P},
+                                  "after the channel's noise parameter was updated the next call does not add the newly configured noise power", "c07:replay_reuse")
                 if as_tensor and ok_all:
                     ctx.check(abs(float(param) - value) < 1e-6 * abs(value), "C07.param_unmodified", cell, case, float(param), value, "the caller's parameter tensor was modified by the channel", "c07:replay_reuse")
     ctx.sample({"reuse": "4 calls per channel object (complex, complex, real, complex); float and 0-dim tensor parameters"})
@@ -235,6 +251,20 @@ def unit_verbatim(ctx):
                 y = ch(x, noise=n)
                 ctx.check(torch.equal(y, x + n), "C07.a_verbatim", cell, {"shape": list(shape), "complex": cplx}, None, "x + noise exactly", "caller-supplied noise is not added verbatim", "c07:replay_verbatim")
                 ctx.nontrivial("verb", cplx, shape)
+    # noise of another dtype than the signal (complex noise on a real signal, double-precision noise on a single-precision signal):
+    # still x + noise, i.e. what torch's type promotion gives - nothing of the supplied noise may be dropped or rounded
+    for xc, xd, nc, nd in ((False, "float32", True, "complex64"), (False, "float32", False, "float64"), (True, "complex64", True, "complex128"), (False, "float64", True, "complex64")):
+        for shape in ((16,), (4, 9)):
+            x = gen_signal(shape, 2.0, xc, rng).to(getattr(torch, xd))
+            n = gen_signal(shape, 0.3, nc, rng).to(getattr(torch, nd)) * (1 + 1e-9)
+            cell = {"channel": "awgn", "dtype": xd, "noise_dtype": nd, "mode": "supplied_noise"}
+            ok, y = ctx.call(lambda: C.AWGNChannel(avg_noise_power=5.0)(x, noise=n), "C07.a_verbatim_raises", cell, {"shape": list(shape), "signal": xd, "noise": nd}, checker="c07:replay_verbatim")
+            if ok:
+                exp = x + n
+                ctx.ev()
+                ctx.check(y.dtype == exp.dtype and bool(torch.equal(y, exp)), "C07.a_verbatim", cell, {"shape": list(shape), "signal": xd, "noise": nd}, str(y.dtype), str(exp.dtype),
+                          "caller-supplied noise of another dtype is not added verbatim (part of it is dropped or rounded)", "c07:replay_verbatim")
+                ctx.nontrivial("verb_mixed", xd, nd, shape)
     ctx.sample({"check": "AWGN(x, noise=n) == x + n bit for bit"})
 
 
